@@ -227,6 +227,24 @@ class C18(Prop):
         jobs[p]['attrs'].setdefault(a, 'file')
         return ['a', p, a]
 
+    def _sprinkle_mutations(self, rng, prog, long_name):
+        """what a user may set on a job after the fact — `j.name = …` above all (the name feeds the scratch directory at creation
+        time only), also always_run / image / cpu / attributes — at random points after the job was created: before or after its
+        declare_resource_group, its commands, and the commands of its consumers"""
+        if rng.random() > 0.35:
+            return
+        for _ in range(rng.choice([1, 1, 2, 3])):
+            created = [i for i, s in enumerate(prog) if s['op'] in ('job', 'pyjob')]
+            if not created:
+                return
+            jidx = rng.randrange(len(created))
+            pos = rng.randint(created[jidx] + 1, len(prog))
+            if rng.random() < 0.7:
+                name = rng.choice(['align-sample-17', 'renamed', None, 'x y/z', long_name, long_name[:244] + 'Z'])
+                prog.insert(pos, {'op': 'rename', 'j': jidx, 'name': name})
+            else:
+                prog.insert(pos, {'op': 'touch', 'j': jidx, 'what': rng.choice(['always_run', 'image', 'cpu', 'attributes'])})
+
     def _random_case(self, rng):
         prog = []
         handles = []          # ('file',) | ('group', idents)
@@ -333,6 +351,7 @@ class C18(Prop):
                     a = rng.choice(sorted(cand))
                     prog.append({'op': 'ext', 'j': j, 'name': a, 'ext': '.txt'})
                     info['ext'].add(a)
+        self._sprinkle_mutations(rng, prog, long_name)
         for _ in range(rng.choice([0, 1, 1, 2])):
             r = rng.random()
             results = [(p, k) for p in range(njobs) for k in range(jobs[p].get('calls', 0))]
@@ -394,6 +413,10 @@ class C18(Prop):
                 out.append(f"E {s['j']} {hx(s['name'])} {hx(s['ext'])}")
             elif op == 'out':
                 out.append(f"W {self._ref_tok(s['ref'])} {hx(s['dest'])}")
+            elif op == 'rename':
+                out.append(f"N {s['j']} {hx(s['name']) if s['name'] else '-'}")
+            elif op == 'touch':
+                out.append(f"N {s['j']} -")           # always_run / image / cpu / attributes: no path-relevant effect either
             elif op == 'pyjob':
                 out.append(f"P {hx(s['name']) if s['name'] else '-'}")
             elif op == 'pycall':
@@ -489,6 +512,18 @@ class C18(Prop):
                             env['handles'].append(b.read_input_group(**{i: p for i, p in s['files']}))
                         elif op == 'job':
                             env['jobs'].append(b.new_job(name=s['name']))
+                        elif op == 'rename':
+                            env['jobs'][s['j']].name = s['name']
+                        elif op == 'touch':
+                            j = env['jobs'][s['j']]
+                            if s['what'] == 'always_run':
+                                j.always_run()
+                            elif s['what'] == 'image':
+                                j.image('ubuntu:22.04')
+                            elif s['what'] == 'cpu':
+                                j.cpu(2)
+                            else:
+                                j.attributes = {'sample': 'NA12878'}
                         elif op == 'pyjob':
                             env['jobs'].append(b.new_python_job(name=s['name']))
                         elif op == 'pycall':
@@ -847,6 +882,9 @@ class C18(Prop):
                         return True
                 if op == 'pycall':
                     jobs[s['j']]['calls'] += 1
+            elif op in ('rename', 'touch'):
+                if s['j'] >= len(jobs):
+                    return True
             elif op == 'ext':
                 if s['j'] >= len(jobs) or s['name'] in jobs[s['j']]['groups']:
                     return True
@@ -886,7 +924,7 @@ class C18(Prop):
                         (member_only if p[0] == 'b' else groups_whole).add((p[1], p[2]))
             if s['op'] == 'out' and s['ref'][0] == 'c':
                 convs.setdefault((s['ref'][1], s['ref'][2]), set()).add(s['ref'][3])
-            if s['op'] in ('igroup', 'rgroup', 'ext', 'out', 'pycall'):
+            if s['op'] in ('igroup', 'rgroup', 'ext', 'out', 'pycall', 'rename', 'touch'):
                 tags.append('has-' + s['op'])
         if member_only - groups_whole:
             tags.append('has-member-only-reference')
